@@ -123,6 +123,9 @@ def _build(node, leaves):
     if k == "num":
         return Number(node[1], node[2])
     if k == "ten":
+        pre = getattr(leaves, "prebuilt", None)
+        if pre is not None and id(node) in pre:
+            return pre[id(node)]  # operand created by the caller outside the current context
         inputs = OrderedDict((n, Bint[s]) for n, s in node[1])
         return Tensor(leaves.make(node), inputs, node[3])
     if k == "var":
